@@ -364,3 +364,13 @@ impl<'a> FmtVisitor<'a> {
         }
     }
 }
+
+/// Verification hook (compiled only with `--cfg rustfmt_verif`).
+#[cfg(rustfmt_verif)]
+pub(crate) mod verif {
+    use super::*;
+
+    pub(crate) fn push_vertical_spaces(v: &mut FmtVisitor<'_>, newline_count: usize) {
+        v.push_vertical_spaces(newline_count)
+    }
+}
